@@ -69,9 +69,9 @@ def cfg_text(consts, invariants, fixes=frozenset()):
     return "\n".join(lines) + "\n"
 
 
-ALL_MATCH = S("none", "eq", "neq", "re", "nre", "empty", "nonempty", "reany", "eqy")
+ALL_MATCH = S("none", "eq", "neq", "re", "nre", "empty", "nonempty", "reany", "reopt", "eqy")
 ALL_UN = S("abs", "neg", "scalar", "vecs", "absent", "rate", "lot", "lotsub", "absentot",
-           "lrepc", "lrepa", "lrepcx", "lrepdel", "ljoin")
+           "lrepc", "lrepa", "lrepcx", "lrepdel", "lrepdelx", "ljoin", "ljoine")
 
 ALL_CMP = S("==", "!=", ">", "<", ">=", "<=")
 ALL_AGGSETS = S(S(), S("a"), S("b"), S("a", "b"), S("c"))
@@ -95,6 +95,18 @@ MC_WIDE1 = dict(MaxDepth=1, MatcherKinds=S("none", "eq", "neq", "empty"), Matche
                 AggOps=S(), AggLabelSets=S(), ArithOps=S("+", "*"), CmpOps=S("==", ">"), SetOps=S("and", "or", "unless"),
                 MatchSets=S(S(), S("a"), S("b"), S("a", "b")), GroupIncs=S(S(), S("b"), S("c")),
                 DBSeries=1, DBA=S("x", "y"), DBB=S("x"), DBC=S("x"), DBVals=S(1, 2))
+# exhaustive: two nested aggregations on either side of a plain arithmetic join (depth 3)
+MC_NEST = dict(MaxDepth=3, MaxBinNest=1, MatcherKinds=S("none"), MatcherKindsB=S("none", "eq"), Leaves=S("sel"), UnFns=S(),
+               AggOps=S("sum"), AggLabelSets=S(S("a"), S("a", "b")), ArithOps=S("*"), CmpOps=S(), SetOps=S(), MatchSets=S(),
+               GroupIncs=S(), DBSeries=1, DBA=S("x"), DBB=S("x", "y"), DBC=S(), DBVals=S(1))
+# exhaustive: a binary node whose operands are binary nodes over selectors (depth 2)
+MC_NESTBIN = dict(MaxDepth=2, MaxBinNest=2, MaxStack=3, MatcherKinds=S("none"), MatcherKindsB=S("none"), Leaves=S("sel"), UnFns=S(),
+                  AggOps=S(), AggLabelSets=S(), ArithOps=S("*"), CmpOps=S(), SetOps=S("and", "unless"), MatchSets=S(S("a")),
+                  GroupIncs=S(), DBSeries=1, DBA=S("x", "y"), DBB=S(), DBC=S(), DBVals=S(1))
+# exhaustive: comparisons (conditional sources) under or / unless on() / and, over constants and one selector (depth 2)
+MC_COND = dict(MaxDepth=2, MaxBinNest=2, MaxStack=2, MatcherKinds=S("none"), MatcherKindsB=S("none"), Leaves=S("sel", "num", "vec"), UnFns=S(),
+               AggOps=S(), AggLabelSets=S(), ArithOps=S(), CmpOps=S(">"), SetOps=S("or", "unless", "and"), MatchSets=S(S()),
+               GroupIncs=S(), DBSeries=1, DBA=S("x"), DBB=S(), DBC=S(), DBVals=S(1, 2))
 # simulation over the full vocabulary
 SIM_FULL = dict(MaxDepth=3, MaxBinNest=2, MaxStack=3, MatcherKinds=ALL_MATCH, MatcherKindsB=S("none", "eq", "empty"), Leaves=S("sel", "seloff", "num", "time", "vec"),
                 UnFns=ALL_UN, AggOps=S("sum", "count", "topk", "cv"), AggLabelSets=ALL_AGGSETS,
@@ -158,8 +170,9 @@ def what(v):
         return ("the engine returns a series with labels {%s} for `%s` which no live branch of pint's analysis can have (%d branches, %d live); data: %s"
                 % (",".join(v["names"]), v["q"], v["nbranches"], v["nlive"], json.dumps(v["wit"]["db"])))
     return ("promql/impossible flags `%s` (%s) but the operation %s on data whose series carry every named label (%d of %d databases), e.g. %s"
-            % (v["q"], v["msg"][:120], "returns series" if v["nonempty"] else "differs from its left operand",
-               v["nonempty"] or v["differs"], v["nprem"], json.dumps(v["wit"]["db"])))
+            % (v["q"], v["msg"][:120], "returns series" if v["nonempty"] and v["kind"] != "or" and not (v["kind"] == "join" and v["op"] == "unless") else "differs from its left operand",
+               v["differs"] if (v["kind"] == "or" or (v["kind"] == "join" and v["op"] == "unless")) else v["nonempty"], v["nprem"],
+               json.dumps(v["wit"]["db"])))
 
 
 def pshape(e):
@@ -177,14 +190,53 @@ def pshape(e):
 
 
 def tiers(thorough):
-    """(name, constants) of the exhaustive MC slices and the simulation size."""
+    """[(name, constants, replay target)] of the exhaustive MC slices, simulation size, simulation replay cap."""
     if thorough:
-        return [("join", MC_JOIN), ("static", dict(MC_STATIC, MaxDepth=2)), ("unary", dict(MC_UNARY, MaxDepth=2, DBVals=S(1))),
-                ("wide1", MC_WIDE1)], 400, 60000
+        return [("join", MC_JOIN, 12000), ("static", MC_STATIC, 6000), ("unary", dict(MC_UNARY, MaxDepth=2, DBVals=S(1), DBC=S()), 12000),
+                ("wide1", dict(MC_WIDE1, MatcherKinds=S("none", "eq", "neq", "empty", "reany", "reopt"), MatcherKindsB=S("none", "eq", "empty"), DBC=S()), 12000),
+                ("nest", MC_NEST, 4000), ("nestbin", MC_NESTBIN, 4000), ("cond", MC_COND, 4000)], 300, 30000
     q_join = dict(MC_JOIN, MatcherKinds=S("none", "eq"), AggLabelSets=S(S("a")))
-    q_wide = dict(MC_WIDE1, MatcherKinds=S("none", "eq", "empty"), MatcherKindsB=S("none"), CmpOps=S(">="), ArithOps=S("*"),
+    q_wide = dict(MC_WIDE1, MatcherKinds=S("none", "eq", "empty", "reopt"), MatcherKindsB=S("none", "empty"), CmpOps=S(">="), ArithOps=S("*"),
                   MatchSets=S(S(), S("a")), GroupIncs=S(S(), S("b")), DBC=S(), DBVals=S(1))
-    return [("join", q_join), ("static", MC_STATIC), ("unary", dict(MC_UNARY, DBVals=S(1))), ("wide1", q_wide)], 25, 1600
+    return [("join", q_join, 1200), ("static", MC_STATIC, 1000), ("unary", dict(MC_UNARY, DBVals=S(1)), 1500), ("wide1", q_wide, 2000),
+            ("nest", MC_NEST, 700), ("nestbin", MC_NESTBIN, 700), ("cond", MC_COND, 900)], 25, 1500
+
+
+def skey(e, top=True):
+    """Stratification key of an expression: everything but metric names; below the top node selectors lose their matchers."""
+    k = e["k"]
+    if k == "sel":
+        return "sel{%s,%s%s}" % (e["ma"], e["mb"], ",off" if e["off"] else "") if top else "sel"
+    if k in ("num", "time"):
+        return k + (str(e["v"]) if k == "num" and top else "")
+    if k == "vec":
+        return "vector(%s)" % skey(e["e"], top)
+    if k == "fn":
+        return "%s[%s%s%s%s](%s)" % (e["f"], e["dst"], e["src"], e["re"], e["repl"], skey(e["e"], False))
+    if k == "agg":
+        return "%s_%s[%s](%s)" % (e["op"], e["mod"], "".join(sorted(e["ls"])), skey(e["e"], False))
+    return "(%s %s%s %s[%s] %s[%s] %s)" % (skey(e["l"], False), e["op"], "_bool" if e["bool"] else "", e["vm"], "".join(sorted(e["ls"])),
+                                           e["grp"], "".join(sorted(e["inc"])), skey(e["r"], False))
+
+
+def stratified(cs, target, rnd):
+    """About `target` cases: every stratum (skey) is represented, larger strata proportionally more."""
+    cs = sorted(cs, key=lambda c: json.dumps(c, sort_keys=True))
+    if len(cs) <= target:
+        return cs
+    groups = {}
+    for c in cs:
+        groups.setdefault(skey(c["e"]), []).append(c)
+    keys = sorted(groups)
+    for k in keys:
+        rnd.shuffle(groups[k])
+    if len(keys) >= target:              # more strata than budget: one case from a random choice of strata
+        rnd.shuffle(keys)
+        return [groups[k][0] for k in sorted(keys[:target])]
+    out = [groups[k][0] for k in keys]   # one per stratum, the rest proportionally
+    rest = [c for k in keys for c in groups[k][1:]]
+    rnd.shuffle(rest)
+    return out + rest[:target - len(out)]
 
 
 def run(ctx, prop, cases_override=None):
@@ -202,7 +254,7 @@ def run(ctx, prop, cases_override=None):
     if cases_override is None:
         slices, nsim, ncap = tiers(thorough)
         # ---- MC: exhaustive slices; model-level counterexamples are leads, replayed below on the real code
-        for name, consts in slices:
+        for name, consts, target in slices:
             r = ctx.tlc("LabelFlow", "lf_mc_%s.cfg" % name, files={"lf_mc_%s.cfg" % name: cfg_text(consts, [lead_inv, "EmitCase"], fixes)},
                         timeout=5000, workers=workers, tag="MC-" + name, heap="8g")
             mc_runs.append(r)
@@ -219,10 +271,8 @@ def run(ctx, prop, cases_override=None):
                 g = groups[k]
                 rnd.shuffle(g)
                 leads += g[:per]
-            # ... and of the expressions the model found nothing wrong with
-            cs.sort(key=lambda c: json.dumps(c, sort_keys=True))
-            rnd.shuffle(cs)
-            cases += cs[:(20000 if thorough else 450)]
+            # ... and a stratified sample of all expressions of the slice
+            cases += stratified(cs, target, rnd)
         if len(leads) > (20000 if thorough else 800):
             rnd.shuffle(leads)
             leads = leads[:(20000 if thorough else 800)]
@@ -250,21 +300,32 @@ def run(ctx, prop, cases_override=None):
     # ---- EXEC
     tpath = ctx.path("lflow_trace.ndjson")
     ndb = 800 if thorough else 80
-    ctx.vh("exec-lflow", cpath, tpath, env={"LF_NDB": str(ndb), "LF_NPREM": str(ndb), "LF_NCONC": "4"}, timeout=3000)
+    ctx.vh("exec-lflow", cpath, tpath, env={"LF_NDB": str(ndb), "LF_NPREM": str(ndb), "LF_NCONC": "4" if thorough else "2"}, timeout=3000)
     trace = read_ndjson(tpath)
     if len(trace) != len(uniq):
         raise MachineryError("EXEC returned %d records for %d cases" % (len(trace), len(uniq)))
-    # ---- JUDGE (chunks keep each TLC run small)
+    # ---- JUDGE: chunks of the trace are judged by independent single-worker TLC runs, a few at a time
+    from concurrent.futures import ThreadPoolExecutor
     viols, drift, conc = [], [], []
-    chunk = 4000
-    for off in range(0, len(trace), chunk):
+    chunk = 2500
+    offs = list(range(0, len(trace), chunk))
+
+    def judge(off):
         part = trace[off:off + chunk]
-        ppath = write_ndjson(ctx.path("lflow_part.ndjson"), part)
-        j = ctx.tlc("LabelFlowTrace", "LabelFlowTrace.cfg", workers=1, files={"lflow_trace.ndjson": ppath, "LabelFlowTrace.cfg": TRACE_CFG % tla(fixes)},
-                    timeout=3000, heap="8g", tag="JUDGE")
+        sub = vlib.Ctx(ctx.prop, ctx.tier, ctx.seed, ctx.repo)     # own scratch copy of spec/ (removed at exit)
+        ppath = write_ndjson(sub.path("lflow_part.ndjson"), part)
+        j = sub.tlc("LabelFlowTrace", "LabelFlowTrace.cfg", workers=1,
+                    files={"lflow_trace.ndjson": ppath, "LabelFlowTrace.cfg": TRACE_CFG % tla(fixes)}, timeout=5000, heap="4g", tag="JUDGE")
+        sub.cleanup()
+        return off, len(part), j, sub.tlc_stats
+
+    with ThreadPoolExecutor(max_workers=int(os.environ.get("LF_JUDGES", "4"))) as ex:
+        results = list(ex.map(judge, offs))
+    for off, n, j, stats in results:
+        ctx.tlc_stats += stats
         done = prints(j, "DONE")
-        if not done or done[0][0] != len(part):
-            raise MachineryError("JUDGE did not consume all %d trace records" % len(part))
+        if not done or done[0][0] != n:
+            raise MachineryError("JUDGE did not consume all %d trace records of the chunk at %d" % (n, off))
         for cid, v in prints(j, "VIOL"):
             if v["p"] != prop:
                 continue
